@@ -61,6 +61,7 @@ def main(argv):
     except ValueError:
         seed = 0
     t0 = time.time()
+    Facts.repo = harness.REPO
     rep = Report(pid, tier)
     try:
         mod = importlib.import_module('props.' + pid)
